@@ -123,6 +123,87 @@ extern "C" void sbv_harness(const char*)
             for (tensor_size_t i = 0; i < tv.second.size(); ++i) sbv_out("valid", static_cast<uint64_t>(tv.second(i)));
         }
     }
+    else if (sbv_cfg_is("mode", "determ"))
+    {
+        // "equal seeds give equal splits": the draws are a function of the engine state (contract mode 2: the real
+        // std::minstd_rand steps, each draw is an arbitrary but FIXED value per (state, range)), so two splits agree for
+        // every such function exactly when they consume the same engine states with the same ranges in the same roles.
+        // which=0: k-fold, 1: random; twice=0: two splitter objects with the same seed, 1: the same object twice,
+        // 2: a clone, 3/4: other splits in between (a different seed and a shorter / longer input) must not disturb the second one
+        sbv_set_contract("udist", 2);
+        const auto samples = make_samples(n, ordered);
+        const auto which   = sbv_cfg("which", 0);
+        const auto twice   = sbv_cfg("twice", 0);
+        const auto seed    = static_cast<int64_t>(sbv_cfg("seed", 42));
+        const auto make    = [&](int64_t the_seed) -> rsplitter_t
+        {
+            rsplitter_t splitter;
+            if (which == 0) splitter = std::make_unique<kfold_splitter_t>();
+            else
+            {
+                splitter = std::make_unique<random_splitter_t>();
+                splitter->parameter("splitter::random::train_per") = static_cast<tensor_size_t>(sbv_cfg("perc", 60));
+            }
+            splitter->parameter("splitter::folds") = folds;
+            splitter->parameter("splitter::seed")  = the_seed;
+            return splitter;
+        };
+        const auto first = make(seed);
+        if (twice == 4)
+        {
+            // the compared input is the SHORTER list, with splits of the longer one (same and other seed) in between
+            const indices_t fewer   = samples.slice(0, n - 1);
+            const auto      splits1 = first->split(fewer);
+            (void)make(seed + 1)->split(samples);
+            (void)first->split(samples);
+            const auto splits2 = make(seed)->split(fewer);
+            sbv_check(splits1.size() == splits2.size(), "equal seeds: same number of splits");
+            for (size_t f = 0; f < splits1.size() && f < splits2.size(); ++f)
+            {
+                const auto& [t1, v1] = splits1[f];
+                const auto& [t2, v2] = splits2[f];
+                sbv_check(t1.size() == t2.size() && v1.size() == v2.size(), "equal seeds: same sizes");
+                if (t1.size() != t2.size() || v1.size() != v2.size()) continue;
+                int same = 1;
+                for (tensor_size_t i = 0; i < t1.size(); ++i) same &= (t1(i) == t2(i)) ? 1 : 0;
+                for (tensor_size_t i = 0; i < v1.size(); ++i) same &= (v1(i) == v2(i)) ? 1 : 0;
+                sbv_check(same, "equal seeds give equal splits");
+            }
+            return;
+        }
+        const auto splits1 = first->split(samples);
+        rsplitter_t second;
+        if (twice == 0) second = make(seed);
+        if (twice == 2) second = first->clone();
+        if (twice == 3)
+        {
+            const auto other = make(seed + 1);
+            indices_t  fewer = samples.slice(0, n - 1);
+            (void)other->split(fewer);
+            (void)first->split(fewer);
+            second = make(seed);
+        }
+        const auto splits2 = (twice == 1 ? first : second)->split(samples);
+        sbv_check(splits1.size() == splits2.size(), "equal seeds: same number of splits");
+        if (splits1.size() == splits2.size())
+            for (size_t f = 0; f < splits1.size(); ++f)
+            {
+                const auto& [t1, v1] = splits1[f];
+                const auto& [t2, v2] = splits2[f];
+                sbv_check(t1.size() == t2.size() && v1.size() == v2.size(), "equal seeds: same sizes");
+                if (t1.size() != t2.size() || v1.size() != v2.size()) continue;
+                int same = 1;
+                for (tensor_size_t i = 0; i < t1.size(); ++i) same &= (t1(i) == t2(i)) ? 1 : 0;
+                for (tensor_size_t i = 0; i < v1.size(); ++i) same &= (v1(i) == v2(i)) ? 1 : 0;
+                sbv_check(same, "equal seeds give equal splits");
+            }
+        check_splits(splits1, samples, folds);
+        for (const auto& tv : splits2)
+        {
+            for (tensor_size_t i = 0; i < tv.first.size(); ++i) sbv_out("train", static_cast<uint64_t>(tv.first(i)));
+            for (tensor_size_t i = 0; i < tv.second.size(); ++i) sbv_out("valid", static_cast<uint64_t>(tv.second(i)));
+        }
+    }
     else if (sbv_cfg_is("mode", "randsize"))
     {
         // size clause for EVERY train percentage of the parameter domain (symbolic) on larger inputs: the random source is
